@@ -77,8 +77,8 @@ impl BuildHasher for ShardHasher {
 // ------------------------------------------------------------------------------------------
 
 /// Everything the drivers need of a key type
-pub trait CKey: Key + Hash + Eq + Copy + Send + Sync + 'static {}
-impl<T: Key + Hash + Eq + Copy + Send + Sync + 'static> CKey for T {}
+pub trait CKey: Key + Hash + Eq + Copy + Send + Sync + serde::Serialize + 'static {}
+impl<T: Key + Hash + Eq + Copy + Send + Sync + serde::Serialize + 'static> CKey for T {}
 
 /// Everything the drivers need of a hasher
 pub trait CHasher: BuildHasher + Clone + Send + Sync + 'static {}
@@ -1632,6 +1632,110 @@ struct RoundResult {
     findings: usize,
 }
 
+/// How often the serialiser thread of a stress round takes a snapshot
+const SNAPSHOTS_PER_ROUND: usize = 20;
+
+/// The entries of a JSON object in document order, repeated names kept (a `serde_json::Map` would merge them)
+struct ObjectEntries(Vec<(String, serde_json::Value)>);
+
+impl<'de> serde::Deserialize<'de> for ObjectEntries {
+    fn deserialize<D: serde::Deserializer<'de>>(d: D) -> Result<Self, D::Error> {
+        struct V;
+        impl<'de> serde::de::Visitor<'de> for V {
+            type Value = ObjectEntries;
+            fn expecting(&self, f: &mut std::fmt::Formatter<'_>) -> std::fmt::Result {
+                f.write_str("a JSON object")
+            }
+            fn visit_map<A: serde::de::MapAccess<'de>>(self, mut map: A) -> Result<ObjectEntries, A::Error> {
+                let mut entries = Vec::new();
+                while let Some(entry) = map.next_entry::<String, serde_json::Value>()? {
+                    entries.push(entry);
+                }
+                Ok(ObjectEntries(entries))
+            }
+        }
+        d.deserialize_map(V)
+    }
+}
+
+/// C14 on the snapshots a serialiser thread took while the workers interned: each is a JSON object whose entries
+/// `"s": k` name a string of the pool once, with a raw key k >= 1 under which the interner (now quiescent; a key
+/// resolves to one string forever) resolves exactly that string.  NOT required: that the keys of a snapshot are dense.
+fn check_snapshots<K: CKey, S: CHasher>(
+    rodeo: &ThreadedRodeo<K, S>,
+    pool: &[String],
+    snapshots: &[Result<String, String>],
+    sink: &mut Sink<'_>,
+) {
+    let shorten = |text: &str| -> String {
+        let mut cut = text.len().min(160);
+        while !text.is_char_boundary(cut) {
+            cut -= 1;
+        }
+        format!("{}{}", &text[..cut], if cut < text.len() { "..." } else { "" })
+    };
+    for (n, snapshot) in snapshots.iter().enumerate() {
+        let text = match snapshot {
+            Ok(text) => text,
+            Err(msg) => {
+                sink.rep("C14", format!("snapshot {n}: {msg}"));
+                continue;
+            }
+        };
+        match serde_json::from_str::<serde_json::Value>(text) {
+            Err(e) => {
+                sink.rep("C14", format!("snapshot {n} is not a JSON value ({e}): {}", shorten(text)));
+                continue;
+            }
+            Ok(serde_json::Value::Object(_)) => {}
+            Ok(_) => {
+                sink.rep("C14", format!("snapshot {n} is not a JSON object: {}", shorten(text)));
+                continue;
+            }
+        }
+        let entries = match serde_json::from_str::<ObjectEntries>(text) {
+            Ok(e) => e.0,
+            Err(e) => {
+                sink.rep("C14", format!("snapshot {n} cannot be read entry by entry ({e}): {}", shorten(text)));
+                continue;
+            }
+        };
+        let mut seen: BTreeSet<&str> = BTreeSet::new();
+        for (s, v) in &entries {
+            if !seen.insert(s.as_str()) {
+                sink.rep("C14", format!("snapshot {n} lists the string {} twice", hex(s.as_bytes())));
+            }
+            if !pool.iter().any(|p| p == s) {
+                sink.rep("C14", format!("snapshot {n} lists {} which nobody interns", hex(s.as_bytes())));
+            }
+            let raw = match v.as_u64() {
+                Some(raw) if raw >= 1 => raw,
+                _ => {
+                    sink.rep("C14", format!("snapshot {n}: the key of {} is {v}, not a positive integer", hex(s.as_bytes())));
+                    continue;
+                }
+            };
+            let key = usize::try_from(raw - 1).ok().and_then(K::try_from_usize);
+            let resolved = match key {
+                Some(key) => catch_unwind(AssertUnwindSafe(|| rodeo.try_resolve(&key).map(|r| r.as_bytes().to_vec()))),
+                None => Ok(None),
+            };
+            match resolved {
+                Ok(Some(r)) if r == s.as_bytes() => {}
+                Ok(Some(r)) => sink.rep(
+                    "C14",
+                    format!("snapshot {n} says {} has the raw key {raw}, which resolves to {}", hex(s.as_bytes()), hex(&r)),
+                ),
+                Ok(None) => sink.rep(
+                    "C14",
+                    format!("snapshot {n} says {} has the raw key {raw}, which does not resolve", hex(s.as_bytes())),
+                ),
+                Err(_) => sink.rep("C14", format!("snapshot {n}: try_resolve of the raw key {raw} panicked")),
+            }
+        }
+    }
+}
+
 /// One round inside a scope of the allocation-discipline monitor (C04, `talloc`)
 fn stress_round<K: CKey, S: CHasher>(
     round: &Round,
@@ -1683,7 +1787,8 @@ fn stress_round_inner<K: CKey, S: CHasher>(
     // every limit that is or was in force: usage can only grow while usage + request <= some limit
     let hi_bound = AtomicUsize::new(round.lim.max(initial.memory_usage));
     let done = AtomicBool::new(false);
-    let barrier = Barrier::new(threads + 1);
+    // the workers, the usage sampler and the serialiser
+    let barrier = Barrier::new(threads + 2);
     let statics: Vec<Vec<&'static str>> = (0..threads)
         .map(|t| round.pool.iter().map(|s| leaked(s, t)).collect())
         .collect();
@@ -1695,7 +1800,7 @@ fn stress_round_inner<K: CKey, S: CHasher>(
     let barrier_ref = &barrier;
     let statics_ref = &statics;
     type WorkerOut = (Vec<CallRec>, Vec<Finding>);
-    let (results, sampler_notes): (Vec<Result<WorkerOut, ()>>, Vec<Finding>) = std::thread::scope(|s| {
+    let (results, sampler_notes, snapshots): (Vec<Result<WorkerOut, ()>>, Vec<Finding>, Vec<Result<String, String>>) = std::thread::scope(|s| {
         let handles: Vec<_> = (0..threads)
             .map(|tid| {
                 s.spawn(move || -> WorkerOut {
@@ -1795,11 +1900,33 @@ fn stress_round_inner<K: CKey, S: CHasher>(
             }
             notes
         });
+        // C14: serialises the interner again and again while the others intern (the first time right after the
+        // barrier, when it may still be empty); the documents are judged after the join
+        let serialiser = s.spawn(move || -> Vec<Result<String, String>> {
+            let mut docs: Vec<Result<String, String>> = Vec::with_capacity(SNAPSHOTS_PER_ROUND);
+            barrier_ref.wait();
+            for n in 0..SNAPSHOTS_PER_ROUND {
+                // one more after the workers are done (the final state), then stop
+                let last = n >= 2 && done_ref.load(Ordering::SeqCst);
+                docs.push(match catch_unwind(AssertUnwindSafe(|| serde_json::to_string(rodeo_ref))) {
+                    Ok(Ok(text)) => Ok(text),
+                    Ok(Err(e)) => Err(format!("serde_json::to_string failed: {e}")),
+                    Err(_) => Err("serde_json::to_string panicked".to_string()),
+                });
+                if last {
+                    break;
+                }
+            }
+            docs
+        });
         let results: Vec<Result<WorkerOut, ()>> =
             handles.into_iter().map(|h| h.join().map_err(|_| ())).collect();
         done_ref.store(true, Ordering::SeqCst);
         let sampler_notes = sampler.join().unwrap_or_default();
-        (results, sampler_notes)
+        let snapshots = serialiser
+            .join()
+            .unwrap_or_else(|_| vec![Err("the serialiser thread died".to_string())]);
+        (results, sampler_notes, snapshots)
     });
 
     let mut calls: Vec<CallRec> = Vec::new();
@@ -1817,6 +1944,8 @@ fn stress_round_inner<K: CKey, S: CHasher>(
     for (p, m) in sampler_notes {
         sink.rep(p, m);
     }
+    check_snapshots(rodeo_ref, &round.pool, &snapshots, &mut sink);
+    drop(snapshots);
     let fin = take_final(rodeo_ref);
     check_common(rodeo_ref, &calls, &all_statics, &fin, round.keycap, &mut sink);
     let bound = hi_bound.load(Ordering::SeqCst);
